@@ -30,7 +30,7 @@ fn bit(v: &Option<arrow2::bitmap::MutableBitmap>, i: usize, len: usize) -> bool 
 	}
 }
 
-// @verif property=C04,C01,C12 tier=quick mem=16 timeout=3000
+// @verif property=C04,C01:thorough,C12:thorough tier=quick mem=16 timeout=3000
 // @encodes peppi::io::slippi::de::parse_event (Frame Pre / Frame Post arms, old framing without Frame Start/End events), ParseState::{frame_open, frame_close}, mutable::{Data, Pre, Post}::{read_push, push_null}
 // @symbolic 2000 all Pre/Post payload bytes of 6 events
 // @bound version 0.1.0 (no Frame Start / Frame End events: frames are delimited by the frame id of Frame Pre), one port holding Ice Climbers, two consecutive frames: the follower is absent from the first and present in the second
@@ -102,7 +102,7 @@ fn c04_port_r1_absent_then_present() {
 	kani::cover!(true, "reached");
 }
 
-// @verif property=C04,C12 tier=quick mem=16 timeout=3000
+// @verif property=C04,C12 tier=thorough mem=24 timeout=5400
 // @encodes peppi::io::slippi::de::parse_event (Frame Start, Frame Pre, Frame Post, Frame End arms), ParseState::frame_close null padding, mutable::Data::push_null
 // @symbolic 2700 frame ids, all payload bytes of 7 events
 // @bound version 3.16.0, one port (not Ice Climbers), two frame occurrences: the character is present in the first and absent from the second (ids arbitrary: rollbacks included)
@@ -396,7 +396,7 @@ fn c06_nopanic_pre_no_frame() {
 	kani::cover!(true, "reached");
 }
 
-// @verif property=C04,C01:thorough tier=quick mem=16 timeout=3000
+// @verif property=C04,C01 tier=thorough mem=24 timeout=5400
 // @encodes peppi::io::slippi::de::parse_event + ParseState::frame_close on an Ice Climbers port: null padding of leader AND follower when both are absent from a frame
 // @symbolic 2900 frame ids, all payload bytes of 10 events
 // @bound version 3.16.0, one port holding Ice Climbers, two frame occurrences: both climbers present in the first, both absent from the second
